@@ -2792,3 +2792,398 @@ class C13(TraceCheck):
 
 
 E.register(C13())
+
+
+# ---------------------------------------------------------------------------------------
+from . import qapsim as Q
+
+
+class QapRun:
+    """One traced run of a plan on the qaptools backend over a SimFS, followed by prove()."""
+
+    def __init__(self, plan, fs, seed, inputs=None, faults=None):
+        self.plan, self.fs, self.seed = plan, fs, seed
+        self.inputs = inputs if inputs is not None else [i["v"] for i in plan["inputs"]]
+        self.faults = faults or {}
+        self.caught = []
+        self.outcome = None
+        self.prove_outcome = None
+        self.stderr = ""
+
+    def run(self):
+        fs = self.fs
+        w = self.w = Q.QapWorld(fs, self.seed, self.plan["cfg"].get("bitlength"))
+        try:
+            if self.faults.get("toolfail"):
+                w.sub.fail = tuple(self.faults["toolfail"])
+            if self.faults.get("write_fault"):
+                fs.write_fault = (self.faults["write_fault"][0], fs.nwrites.get(self.faults["write_fault"][0], 0) +
+                                  self.faults["write_fault"][1])
+            gen = self.gen = P.CodeGen(self.plan)
+            src = self.src = gen.generate()
+            rt = w.runtime
+            b = w.backend
+            g = {"PrivVal": rt.PrivVal, "PubVal": rt.PubVal, "LinComb": rt.LinComb, "guarded": rt.guarded,
+                 "PrivValBool": w.boolean.PrivValBool, "PubValBool": w.boolean.PubValBool,
+                 "LinCombBool": w.boolean.LinCombBool, "if_then_else": w.branching.if_then_else,
+                 "PrivValFxp": lambda v: rt.PrivVal(int(v)), "subqap": b.subqap, "exportcomm": b.exportcomm,
+                 "importcomm": b.importcomm, "__inputs__": self.inputs,
+                 "__step__": lambda *a: None, "__enter__": lambda *a: None, "__leave__": lambda *a: None,
+                 "__caught__": lambda k, e, m=(): self.caught.append((k, type(e).__name__, str(e)[:80])),
+                 "__CAUGHT__": Exception, "__set_ie__": lambda v: None, "__cv__": lambda c: 0}
+            err = io.StringIO()
+            with contextlib.redirect_stderr(err), contextlib.redirect_stdout(err):
+                try:
+                    exec(compile(src, "<qapplan>", "exec"), g)
+                    self.outcome = "completed"
+                except Exception as e:
+                    self.outcome = "raised:%s:%s" % (type(e).__name__, str(e)[:100])
+                self.calls_before_prove = len(w.sub.calls)
+                if self.outcome == "completed":
+                    fs.reader = "prove"
+                    try:
+                        b.prove()
+                        self.prove_outcome = "returned"
+                    except SystemExit as e:
+                        self.prove_outcome = "exit:%r" % (e.code,)
+                    except Exception as e:
+                        self.prove_outcome = "raised:%s:%s" % (type(e).__name__, str(e)[:100])
+                    finally:
+                        fs.reader = "tracer"
+            self.stderr = err.getvalue()
+            self.eqs_complete = fs.complete("pysnark_eqs") or ""
+            self.emitted = list(w.emitted)
+            self.calls = list(w.sub.calls)
+        finally:
+            w.close()
+        return self
+
+
+def judge_qap_run(run, plan):
+    """Yield (oracle, site, detail) problems of one qaptools run."""
+    fs = run.fs
+    eqs = run.eqs_complete
+    try:
+        items = Q.parse_eqs(eqs)
+    except Exception as e:
+        yield "file_malformed", {"file": "pysnark_eqs"}, "equation file does not follow the grammar: %s" % e
+        return
+    try:
+        vals = Q.parse_values(fs.complete("pysnark_wires") or "")
+        io_vals = Q.parse_values(fs.complete("pysnark_values") or "")
+    except Exception as e:
+        yield "file_malformed", {"file": "pysnark_wires/values"}, str(e)
+        return
+    allv = dict(vals)
+    allv.update(io_vals)
+    # (2) every equation holds
+    for it in items:
+        if it[0] == "eq":
+            _, a, b, c, line = it
+            try:
+                ok = (Q.ev_terms(a, allv) * Q.ev_terms(b, allv) - Q.ev_terms(c, allv)) % Q.P == 0
+            except KeyError as e:
+                yield "wire_without_value", {"file": "pysnark_wires"}, "equation %r uses %s which has no value" % (line, e)
+                continue
+            if not ok:
+                yield "eq_unsatisfied", {}, "equation %r does not hold on the wire/value files" % line
+                break
+    # (1) every emitted equation is in the file, in its context
+    lines = set(" ".join(l.split()) for l in eqs.splitlines())
+    for em in run.emitted:
+        if em[0] == "eq":
+            want = " ".join(("%s * %s = %s ." % (em[2], em[3], em[4])).split())
+            if want not in lines:
+                yield "eq_missing_from_file", {}, "emitted equation %r is not in pysnark_eqs" % want
+                break
+        else:
+            _, ctx, sid, val = em
+            k = [n for n in io_vals if n.startswith(ctx + "/o_") and io_vals[n] == val]
+            tied = [n for n in k if " ".join(("* = 1 %s -1 %s" % (sid, n)).split()) in lines]
+            if not tied:
+                yield "public_value_not_tied", {}, "public value %r of wire %s has no o_ wire with a linking equation" % (
+                    val, sid)
+                break
+    # cross-context equations
+    for it in items:
+        if it[0] == "eq" and len(Q.ctx_of_terms(it[1], it[2], it[3])) > 1:
+            yield "eq_mixes_contexts", {}, "equation %r mixes function contexts" % it[4]
+            break
+    # (4) glue
+    blocks = {(it[1], it[2]): it[3] for it in items if it[0] == "ioblock"}
+    fns = {it[2]: it[1] for it in items if it[0] == "function"}
+    table = {f["name"]: f for f in plan.get("subqaps", [])}
+    nglue = 0
+    for it in items:
+        if it[0] != "glue":
+            continue
+        nglue += 1
+        _, c1, b1, c2, b2 = it
+        w1, w2 = blocks.get((c1, b1)), blocks.get((c2, b2))
+        if w1 is None or w2 is None:
+            yield "glue_block_missing", {}, "glue %r refers to an undeclared block" % (it,)
+            break
+        if len(w1) != len(w2):
+            yield "glue_incomplete", {}, "glue %r: blocks of different length %d / %d" % (it, len(w1), len(w2))
+            break
+        try:
+            bad = [(x, y) for x, y in zip(w1, w2) if allv[x] % Q.P != allv[y] % Q.P]
+        except KeyError as e:
+            yield "wire_without_value", {"file": "pysnark_wires"}, "glued wire %s has no value" % e
+            break
+        if bad:
+            yield "glue_values_differ", {}, "glue %r: wires %r carry different values" % (it, bad[0])
+            break
+        f = table.get(fns.get(c2))
+        if f is not None and not plan.get("same_name_fault"):
+            want = f["nargs"] + P.CodeGen.SUBQAP_RET[f["tmpl"]]
+            if len(w1) != want:
+                yield "glue_incomplete", {}, "call %s of %s: %d glued wires, %d arguments+results" % (
+                    c2, f["name"], len(w1), want)
+                break
+    ncalls = sum(1 for c in fns if c != "main")
+    if nglue != ncalls:
+        yield "glue_incomplete", {"what": "count"}, "%d sub-circuit calls, %d [glue] lines" % (ncalls, nglue)
+
+
+def judge_qap_prove(run, plan, faults):
+    fs = run.fs
+    eqs = run.eqs_complete
+    exp, per_ctx = Q.expected_function_files(eqs)
+    calls = run.calls
+    # visibility at read time
+    def semantic(t):
+        return [ln for ln in t.splitlines() if ln.strip() and not ln.startswith("#")]
+    for reader, path, vis, comp in fs.reads:
+        if reader != "tracer" and semantic(vis) != semantic(comp):
+            yield "not_visible_when_read", {"file": path if not path.startswith("pysnark_eqs_") else "pysnark_eqs_<fn>",
+                                            "reader": reader}, \
+                "%s read %s when only %d of %d lines were visible (first hidden: %r)" % (
+                    reader, path, len(semantic(vis)), len(semantic(comp)), semantic(comp)[len(semantic(vis)):][:1])
+            break
+    # failing tool
+    order = ["qapgen", "qapgenf", "qapprove", "qapver"]
+    failed = [c for c in calls[run.calls_before_prove:] if c.get("rc")]
+    if failed and not failed[0].get("injected_failure"):
+        f = failed[0]
+        yield "tool_rejected_its_input", {"tool": f["tool"]}, "%s failed on what the backend gave it: %s" % (
+            f["tool"], f.get("error", "rc=%r" % f.get("rc")))
+        failed = []
+    if failed:
+        f = failed[0]
+        later = calls[calls.index(f) + 1:]
+        dep = order[order.index(f["tool"]) + 1:] if f["tool"] in order else []
+        ran = [c["tool"] for c in later if c["tool"] in dep]
+        if ran:
+            yield "tool_run_after_failure", {"failed": f["tool"]}, "%s failed but %r ran afterwards" % (f["tool"], ran)
+        reported = ("Error in qaptools" in run.stderr or (run.prove_outcome or "").startswith(("exit", "raised")))
+        if not reported:
+            yield "tool_failure_not_reported", {"failed": f["tool"]}, "%s failed silently" % f["tool"]
+        return
+    if run.prove_outcome is None:
+        return
+    names = {}
+    inconsistent = False
+    for call, (fname, lines, dg) in exp.items():
+        if fname in names and names[fname][1] != dg:
+            inconsistent = True
+        names.setdefault(fname, (lines, dg))
+    if inconsistent:
+        if "Inconsistent functions" not in (run.prove_outcome or "") and "Inconsistent" not in run.stderr:
+            yield "inconsistent_functions_not_reported", {}, "two calls of one function name have different " \
+                "equations but proving went on: %s" % run.prove_outcome
+        return
+    if run.prove_outcome != "returned" and not any(c.get("rc") for c in calls[run.calls_before_prove:]):
+        yield "prove_failed", {"how": run.prove_outcome.split(":")[0] + ":" + run.prove_outcome.split(":")[1]
+                               if ":" in run.prove_outcome else run.prove_outcome}, \
+            "proving step ended with %s (stderr: %s)" % (run.prove_outcome, run.stderr.strip().splitlines()[-1:] or "")
+        return
+    for fname, (lines, dg) in names.items():
+        got = fs.complete("pysnark_eqs_" + fname)
+        want = "\n".join(lines) + "\n"
+        if got is None:
+            yield "function_file_missing", {}, "pysnark_eqs_%s was not written" % fname
+            break
+        if got != want:
+            gl, wl = got.splitlines(), want.splitlines()
+            missing = [l for l in wl if l not in gl]
+            extra = [l for l in gl if l not in wl]
+            yield "function_file_differs", {"missing": bool(missing), "extra": bool(extra)}, \
+                "pysnark_eqs_%s: missing %r extra %r" % (fname, missing[:2], extra[:2])
+            break
+        gf = [c for c in calls if c["tool"] == "qapgenf" and c["argv"][2] == "pysnark_eqs_" + fname]
+        if gf and gf[-1]["argv"][5] != dg:
+            yield "digest_differs", {}, "function %s: signature %s passed to qapgenf, my digest of its equations %s" % (
+                fname, gf[-1]["argv"][5], dg)
+            break
+    # distinct functions with distinct equations must have distinct digests
+    seen = {}
+    for fname, (lines, dg) in names.items():
+        if dg in seen and seen[dg] != lines:
+            yield "digest_collision", {}, "different equation sets share digest %s" % dg
+        seen[dg] = lines
+    # schedule
+    sched = fs.complete("pysnark_schedule") or ""
+    sf = [ln.split()[1] for ln in sched.splitlines() if ln.startswith("[function]")]
+    if sorted(sf) != sorted(exp):
+        yield "schedule_differs", {}, "schedule lists calls %r, equation file has %r" % (sorted(sf), sorted(exp))
+    if not any(c["tool"] == "qapprove" for c in calls):
+        yield "prove_failed", {"how": "no-qapprove"}, "qapprove was never invoked"
+
+
+class C12(TraceCheck):
+    name = "C12"
+    prop = "C12"
+    props = ()
+    budget = {"quick": 1500, "thorough": 80000}
+    components = ("real: pysnark/qaptools/{backend,qapsplit,schedule,options,runqapgen,runqapinput,runqapgenf,"
+                  "runqapprove,runqapver}.py and pysnark/runtime.py over a simulated directory; stubs: SimFS (my model "
+                  "of CPython text-file buffering and visibility; cross-checked against a real directory by "
+                  "`./vcheck C12x`), the six qaptools executables (in-process fakes; the fake qapprove evaluates "
+                  "every scheduled equation on the wire file); pysnark/qaptools/contract.py is not exercised")
+    rule = ("histories in one simulated directory: a traced run of a plan with @subqap functions (called several "
+            "times, nested, list results), public outputs, exported/imported commitments, followed by the "
+            "backend's own proving step, optionally followed by a second run of the same plan on other inputs; "
+            "faults: writer buffer capacity in {0, line, 64, 8192, unbounded}, n-th invocation of a tool fails, "
+            "n-th write of the wire file fails, two different bodies under one function name. oracle: my own "
+            "parser/evaluator of the equation grammar: every equation holds on the wire + value files, every "
+            "equation seen at the backend seam is in the file, public values tied through o_ wires, no file is "
+            "read while part of it is still buffered, per-function files equal my own split (sorted, context "
+            "stripped) and the signature passed to qapgenf equals my digest, inconsistent same-named functions are "
+            "reported, every call has a [glue] with blocks of arguments+results carrying pairwise equal values, a "
+            "failing tool is reported and nothing downstream runs, the second run reuses the keys. non-trivial = "
+            "distinct (plan, fault schedule) whose first run reached the proving step")
+
+    def gen(self, rng, i, tier):
+        cfg = {"backend": "qaptools", "bitlength": rng.choice([4, 8]), "resolution": 2, "value_bias": "tiny",
+               "max_nesting": 0, "p_try": 1.0, "p_bool_cond": 1.0, "fxp": False}
+        nf = rng.randrange(0, 4)
+        subqaps = []
+        for k in range(nf):
+            subqaps.append({"name": "f%d" % k, "nargs": rng.randrange(1, 4), "tmpl": rng.randrange(0, 4),
+                            "inner": rng.randrange(0, k) if k else None})
+        same_name = nf >= 2 and rng.random() < 0.08
+        if same_name:
+            subqaps[1]["name"] = subqaps[0]["name"]
+        inputs = [{"kind": rng.choice(["priv", "pub"]), "t": "I", "v": rng.choice([0, 1, 2, 3, -2, 5, 7])}
+                  for _ in range(rng.randrange(1, 4))]
+        body = []
+        exported = []
+        for _ in range(rng.randrange(1, 9)):
+            u = rng.random()
+            if subqaps and u < 0.4:
+                body.append({"s": "subqap_call", "fn": rng.randrange(nf),
+                             "args": [{"ref": rng.randrange(0, 16), "t": "I"} for _ in range(3)], "try": True})
+            elif u < 0.6:
+                body.append({"s": "let", "e": {"op": rng.choice(["*", "+", "-"]), "a": {"ref": rng.randrange(16), "t": "I"},
+                                                "b": {"ref": rng.randrange(16), "t": "I"}, "t": "I"}, "try": True})
+            elif u < 0.75:
+                body.append({"s": "val", "a": {"ref": rng.randrange(16), "t": "I"}, "try": True})
+            elif u < 0.82:
+                body.append({"s": "let", "e": {"op": rng.choice(["<", "=="]), "a": {"ref": rng.randrange(16), "t": "I"},
+                                                "b": {"k": rng.randrange(4), "t": "I"}, "t": "B"}, "try": True})
+            elif u < 0.9:
+                nm = "blk%d" % len(exported)
+                exported.append(nm)
+                body.append({"s": "exportcomm", "vals": [{"ref": rng.randrange(16), "t": "I"}
+                                                         for _ in range(rng.randrange(1, 3))], "name": nm, "try": True})
+            elif exported:
+                body.append({"s": "importcomm", "name": rng.choice(exported), "try": True})
+        plan = {"cfg": cfg, "inputs": inputs, "body": body, "subqaps": subqaps}
+        if same_name:
+            plan["same_name_fault"] = True
+        faults = {"bufcap": rng.choice([0, "line", 64, 8192, 8192, None])}
+        u = rng.random()
+        if u < 0.12:
+            faults["toolfail"] = [rng.choice(["qapgen", "qapgenf", "qapprove", "qapver", "qapinput"]), rng.choice([1, 1, 2])]
+        elif u < 0.2:
+            faults["write_fault"] = ["pysnark_wires", rng.randrange(1, 40)]
+        second = rng.random() < 0.35
+        alt = [rng.choice([0, 1, 2, 3, -2, 5, 7]) for _ in inputs]
+        return {"plan": plan, "faults": faults, "second_run": second, "alt_inputs": alt, "seed": rng.randrange(1 << 30)}
+
+    def run(self, case):
+        plan, faults = case["plan"], case.get("faults", {})
+        fs = Q.SimFS(capacity=faults.get("bufcap", 8192))
+        viol = []
+        site0 = {}
+
+        def add(oracle, site, detail, run_no=1):
+            s = dict(site)
+            if run_no == 2:
+                s["run"] = 2
+            if not any(v["oracle"] == oracle and v["site"] == s for v in viol):
+                viol.append({"property": "C12", "oracle": oracle, "site": s, "detail": detail})
+        r1 = QapRun(plan, fs, case["seed"], faults=faults).run()
+        probes = {}
+        fired = {}
+        if fs.fault_fired:
+            fired["write_error"] = fs.fault_fired
+        if any(c.get("injected_failure") for c in r1.calls):
+            fired["toolfail"] = 1
+        fired["bufcap:%s" % (faults.get("bufcap"),)] = 1
+        if plan.get("same_name_fault"):
+            fired["same_name_different_body"] = 1
+        write_failed = fs.fault_fired > 0
+        if r1.outcome != "completed":
+            probes["script_raised"] = 1
+        if not write_failed:
+            for oracle, site, detail in judge_qap_run(r1, plan):
+                add(oracle, site, detail)
+            if r1.outcome == "completed":
+                for oracle, site, detail in judge_qap_prove(r1, plan, faults):
+                    add(oracle, site, detail)
+        else:
+            probes["write_error_run_not_judged"] = 1
+        nt = None
+        if r1.prove_outcome is not None:
+            nt = E.sha((plan, faults))
+            probes["reached_proving"] = 1
+        events = fs.ops + len(r1.calls)
+        if case.get("second_run") and r1.prove_outcome == "returned" and not viol and not fired.get("toolfail") \
+                and not write_failed:
+            fs.reads.clear()
+            fs.write_fault = None
+            r2 = QapRun(plan, fs, case["seed"] + 1, inputs=case["alt_inputs"], faults={}).run()
+            fired["second_run"] = 1
+            for oracle, site, detail in judge_qap_run(r2, plan):
+                add(oracle, site, detail, 2)
+            if r2.outcome == "completed":
+                for oracle, site, detail in judge_qap_prove(r2, plan, {}):
+                    add(oracle, site, detail, 2)
+                if r1.caught or r2.caught:
+                    probes["second_run_not_comparable"] = 1     # a rejected statement changes the program
+                elif r2.prove_outcome == "returned" and any(c["tool"] in ("qapgenf", "qapgen") for c in r2.calls):
+                    e1, _ = Q.expected_function_files(r1.eqs_complete)
+                    e2, _ = Q.expected_function_files(r2.eqs_complete)
+                    d1 = {f: dg for (f, l, dg) in e1.values()}
+                    d2 = {f: dg for (f, l, dg) in e2.values()}
+                    if d1 == d2:
+                        add("keys_not_reused", {}, "second run with other inputs re-generated keys: %r" % (
+                            [c["tool"] for c in r2.calls],), 2)
+                    else:
+                        add("digest_depends_on_inputs", {}, "function digests differ between two runs of one program "
+                            "on different inputs", 2)
+            events += len(r2.calls)
+        return {"violations": viol,
+                "digest": E.sha((r1.outcome, r1.prove_outcome, fs.snapshot(), [c["tool"] for c in r1.calls],
+                                 [v["oracle"] for v in viol])),
+                "nontrivial": nt, "events": events, "faults": fired, "probes": probes,
+                "sigs": [E.sha((faults.get("bufcap"), sorted(c["tool"] for c in r1.calls), r1.prove_outcome))],
+                "outcome": [r1.outcome, r1.prove_outcome]}
+
+    def shrink_candidates(self, case):
+        for c in P.shrink_plan_candidates(case):
+            yield c
+        if case.get("second_run"):
+            c = copy.deepcopy(case)
+            c["second_run"] = False
+            yield c
+        for i in reversed(range(len(case["plan"].get("subqaps", [])))):
+            if i == len(case["plan"]["subqaps"]) - 1 and i > 0:
+                c = copy.deepcopy(case)
+                c["plan"]["subqaps"].pop()
+                yield c
+
+
+E.register(C12())
